@@ -329,10 +329,11 @@ def generate(ctx, focus):
     behs = [p[1] for p in g.prints if isinstance(p, list) and p and p[0] == 'BEH']
     if len(behs) < 1000:
         raise MachineryError('Gen_Cert produced %d behaviours' % len(behs))
-    if ctx.quick:
+    if ctx.quick and focus == 'C07':
         d3 = [b for b in behs if len(b) == 3]
-        must = [b for b in d3 if any(a['op'] == 'third-local' for a in b[:2]) and b[2]['op'] in ('third', 'recertify', 'export_import', 'copy')]
-        behs = [b for b in behs if len(b) <= 2] + must + ctx.rng.sample([b for b in d3 if b not in must], 220)
+        behs = [b for b in behs if len(b) <= 2] + ctx.rng.sample(d3, 200)
+    elif ctx.quick:
+        pass                                   # every enabled history to depth 3 (1 078), observed at the end
     else:
         behs = [b for b in behs if len(b) <= 3] + ctx.rng.sample([b for b in behs if len(b) == 4], 3000)
     s = ctx.model('Gen_Cert', 'Gen_CertSim', simulate='num=%d' % (12 if ctx.quick else 150), depth=13, seed=ctx.seed + 3, workers=1)
